@@ -7,7 +7,7 @@ COQ = os.path.join(ROOT, 'coq')
 REPO = os.environ.get('TL_REPO', '/repo')
 NPROC = int(os.environ.get('TL_NPROC', '16'))
 TLMODEL = os.path.join(BUILD, 'tlmodel')
-TLIMPL_DEBUG = os.path.join(BUILD, 'cargo', 'debug', 'tlimpl')
+TLIMPL_DEBUG = os.environ.get('VERIF_TLIMPL_DEBUG') or os.path.join(BUILD, 'cargo', 'debug', 'tlimpl')   # the override is for coverage measurement (bin/coverage)
 TLIMPL_RELEASE = os.path.join(BUILD, 'cargo', 'release', 'tlimpl')
 
 def hx(s):
